@@ -830,8 +830,10 @@ def remap_by_types(
 
         def visit_UnaryOp(self, node: ast.UnaryOp) -> Any:
             t_node = self.generic_visit(node)
-            self._found_types[node] = self._found_types[node.operand]
-            self._found_types[t_node] = self._found_types[node.operand]
+            assert isinstance(t_node, ast.UnaryOp)
+            operand_type = self.lookup_type(t_node.operand)
+            self._found_types[node] = operand_type
+            self._found_types[t_node] = operand_type
             return t_node
 
         def visit_BinOp(self, node: ast.BinOp) -> Any:
